@@ -392,6 +392,16 @@ def typed_lengths(F, S):
             if len(fn.params) != 1 or len(targs) != 1 or "ct" not in targs[0]:
                 continue
             calls = [nd for nd in fn.nodes if nd["k"] in CALLS and nd.get("fname") == impl]
+            loops = [nd for nd in fn.nodes if nd["k"] in ("ForStmt", "WhileStmt", "DoStmt", "CXXForRangeStmt")]
+            in_loop = [c for c in calls if any(c["id"] in fn.subtree(l["id"]) for l in loops)]
+            elementwise = [nd for nd in fn.nodes if nd["k"] in CALLS and nd.get("fname") in ("Write", "Read") and any(nd["id"] in fn.subtree(l["id"]) for l in loops)]
+            if in_loop or (not calls and elementwise):
+                # moved piecewise: a value that does not fit (or is not all there) is then partly transferred before the refusal
+                key0 = targs[0]["ct"].replace("const ", "")
+                out.append(bad("R-ATOMIC", "typed<%s>#single-transfer:%s" % (key0, side), fn.loc((in_loop or elementwise)[0]["id"]), fn.qn,
+                               "a typed %s moves its bytes with one primitive call (it happens completely or is refused as a whole)" % side,
+                               "the bytes are moved element by element in a loop: a refusal part-way leaves the earlier elements transferred and the position moved"))
+                continue
             if len(calls) != 1:
                 continue
             a = calls[0]["args"]
@@ -555,7 +565,7 @@ def check(F, run, tier):
     # the typed string read is the inverse of the typed string write: both move size() * sizeof(character) bytes
     from . import c12 as _c12
     _o, _ = _c12.typed_helpers(F, S, run)
-    run.add([o for o in _o if "basic_string" in o.instance and o.instance.endswith("#length")])
+    run.add([o for o in _o if ("basic_string" in o.instance and o.instance.endswith("#length")) or o.instance.endswith("#always-resized")])
     obs, n = resize_fill(F, S)
     run.add(obs)
     obs, n = r_narrow_prefix(F, S)
